@@ -504,3 +504,182 @@ pub fn explore_with<O>(
     }
     (stats, capped)
 }
+
+// ---------------------------------------------------------------------------------------------
+// Observed variants (added for C26): identical scheduling, plus a callback at every quiescent
+// decision point (all logical threads parked at a gate, blocked, or finished) — including the
+// final one where nothing is enabled any more. The callback runs on the scheduler thread while no
+// logical thread is running, so it may read the shared state under test.
+
+/// Like [`run`], calling `observe(k)` at the k-th quiescent point (k = number of decisions taken so far).
+pub fn run_observed(bodies: Vec<Body>, prefix: &[usize], observe: &mut dyn FnMut(usize)) -> Execution {
+    let n = bodies.len();
+    let sh = Arc::new(Shared {
+        m: Mutex::new((0..n).map(|_| TState { phase: Phase::Running, go: false, tid: None }).collect()),
+        cv: Condvar::new(),
+        in_user_code: (0..n).map(|_| std::sync::atomic::AtomicBool::new(false)).collect(),
+    });
+    for (i, body) in bodies.into_iter().enumerate() {
+        let sh2 = sh.clone();
+        std::thread::Builder::new()
+            .name(format!("vthr-{i}"))
+            .spawn(move || {
+                CUR.with(|c| *c.borrow_mut() = Some((sh2.clone(), i)));
+                {
+                    let mut g = sh2.m.lock().unwrap();
+                    g[i].tid = os_tid();
+                }
+                gate(&sh2, i, "start");
+                let r = crate::quiet_catch(body);
+                sh2.in_user_code[i].store(false, std::sync::atomic::Ordering::SeqCst);
+                let mut g = sh2.m.lock().unwrap();
+                g[i].phase = match r {
+                    Ok(()) => Phase::Done,
+                    Err(m) => Phase::Panicked(m),
+                };
+                sh2.cv.notify_all();
+                drop(g);
+                CUR.with(|c| *c.borrow_mut() = None);
+            })
+            .expect("spawn");
+    }
+    let mut exec = Execution { points: vec![], deadlock: false, blocked: vec![], panics: vec![], diverged: None };
+    let mut last: Option<usize> = None;
+    loop {
+        wait_quiescent(&sh);
+        observe(exec.points.len());
+        let g = sh.m.lock().unwrap();
+        let mut enabled: Vec<usize> = (0..n).filter(|&i| matches!(g[i].phase, Phase::AtGate(_))).collect();
+        if let Some(l) = last {
+            if let Some(pos) = enabled.iter().position(|&x| x == l) {
+                enabled.remove(pos);
+                enabled.insert(0, l);
+            }
+        }
+        if enabled.is_empty() {
+            exec.blocked = (0..n).filter(|&i| g[i].phase == Phase::Blocked).collect();
+            exec.deadlock = !exec.blocked.is_empty();
+            for i in 0..n {
+                if let Phase::Panicked(m) = &g[i].phase {
+                    exec.panics.push((i, m.clone()));
+                }
+            }
+            return exec;
+        }
+        let gates = enabled
+            .iter()
+            .map(|&i| if let Phase::AtGate(l) = &g[i].phase { l.clone() } else { String::new() })
+            .collect();
+        drop(g);
+        let k = exec.points.len();
+        let chosen = if k < prefix.len() {
+            if prefix[k] >= enabled.len() {
+                exec.diverged = Some(format!("prefix choice {} out of range {} at point {k}", prefix[k], enabled.len()));
+                release_all(&sh);
+                return exec;
+            }
+            prefix[k]
+        } else {
+            0
+        };
+        let t = enabled[chosen];
+        exec.points.push(Point { enabled, gates, chosen });
+        last = Some(t);
+        let mut g = sh.m.lock().unwrap();
+        g[t].phase = Phase::Running;
+        g[t].go = true;
+        sh.cv.notify_all();
+    }
+}
+
+/// Like [`explore`], with `observe(&obs, k)` called at every quiescent point of every execution.
+///
+/// Every re-execution of a prefix must reproduce the enabled sets and gate labels recorded when the prefix was
+/// first executed ("a prefix replayed must reproduce its recorded observations"). Lock hand-overs inside the code
+/// under test are done by the OS, not by this scheduler, so a replay can occasionally take another path on a
+/// loaded machine: such an execution is discarded and repeated (up to `RETRIES` times, then machinery error);
+/// the number of discarded executions is the third element of the returned tuple.
+pub fn explore_observed<O>(
+    mk: &dyn Fn() -> (Vec<Body>, O),
+    observe: &mut dyn FnMut(&O, usize),
+    check: &mut dyn FnMut(&Execution, O),
+    preemption_bound: Option<usize>,
+    max_executions: u64,
+) -> (ExploreStats, bool, u64) {
+    const RETRIES: usize = 8;
+    let mut stats = ExploreStats { executions: 0, decision_points: 0, max_points: 0, deadlocks: 0 };
+    // (choices, expected (enabled, gates) at each point of the prefix)
+    type Expect = Vec<(Vec<usize>, Vec<String>)>;
+    let mut stack: Vec<(Vec<usize>, Expect)> = vec![(vec![], vec![])];
+    let mut capped = false;
+    let mut retries = 0u64;
+    while let Some((prefix, expect)) = stack.pop() {
+        if stats.executions >= max_executions {
+            capped = true;
+            break;
+        }
+        let mut attempt = 0;
+        let (x, obs) = loop {
+            let (bodies, obs) = mk();
+            let x = run_observed(bodies, &prefix, &mut |k| observe(&obs, k));
+            let mut problem = x.diverged.clone();
+            if problem.is_none() {
+                for (i, (en, ga)) in expect.iter().enumerate() {
+                    match x.points.get(i) {
+                        Some(p) if &p.enabled == en && &p.gates == ga => {}
+                        other => {
+                            problem = Some(format!(
+                                "point {i}: recorded enabled {en:?} at {ga:?}, replay saw {:?}",
+                                other.map(|p| (&p.enabled, &p.gates))
+                            ));
+                            break;
+                        }
+                    }
+                }
+            }
+            match problem {
+                None => break (x, obs),
+                Some(d) => {
+                    attempt += 1;
+                    retries += 1;
+                    if attempt > RETRIES {
+                        crate::machinery_error(&format!("thrsched: replay diverged {attempt} times: {d}"));
+                    }
+                }
+            }
+        };
+        stats.executions += 1;
+        stats.decision_points += x.points.len() as u64;
+        stats.max_points = stats.max_points.max(x.points.len());
+        if x.deadlock {
+            stats.deadlocks += 1;
+        }
+        let mut preemptions_before = vec![0usize; x.points.len() + 1];
+        for i in 0..x.points.len() {
+            let p = &x.points[i];
+            let prev_thread = if i == 0 { None } else { Some(x.points[i - 1].enabled[x.points[i - 1].chosen]) };
+            let running_still_enabled = prev_thread.map(|t| p.enabled[0] == t).unwrap_or(false);
+            let is_preempt = running_still_enabled && p.chosen != 0;
+            preemptions_before[i + 1] = preemptions_before[i] + usize::from(is_preempt);
+        }
+        for i in (prefix.len()..x.points.len()).rev() {
+            let p = &x.points[i];
+            let prev_thread = if i == 0 { None } else { Some(x.points[i - 1].enabled[x.points[i - 1].chosen]) };
+            let running_still_enabled = prev_thread.map(|t| p.enabled[0] == t).unwrap_or(false);
+            for alt in 1..p.enabled.len() {
+                let cost = preemptions_before[i] + usize::from(running_still_enabled);
+                if let Some(b) = preemption_bound {
+                    if cost > b {
+                        continue;
+                    }
+                }
+                let mut np: Vec<usize> = x.choices()[..i].to_vec();
+                np.push(alt);
+                let ne: Expect = x.points[..=i].iter().map(|q| (q.enabled.clone(), q.gates.clone())).collect();
+                stack.push((np, ne));
+            }
+        }
+        check(&x, obs);
+    }
+    (stats, capped, retries)
+}
